@@ -1021,13 +1021,23 @@ func (s *Sim) throttleStep() {
 // every get request is one issued while following its references.
 func (s *Sim) referenceThrottleStep() {
 	n := s.Cfg.Gw.ReferenceThrottle
-	if n <= 0 || s.quietRoot == nil {
+	if n <= 0 || (s.quietRoot == nil && s.quietEv == nil) {
 		return
+	}
+	var from uint64
+	what := ""
+	if s.quietRoot != nil {
+		from, what = s.quietRoot.Seq, s.quietRoot.Method
+	} else {
+		// every connection holding the resource follows the new references of
+		// its own subscription
+		from, what = s.quietEv.seq, fmt.Sprintf("the %d subscription(s) to %s after an event", s.quietEv.holders, s.quietEv.name)
+		n *= s.quietEv.holders
 	}
 	s.mu.Lock()
 	out := 0
 	for _, r := range s.tr.reqs {
-		if r.Type == "get" && r.Seq > s.quietRoot.Seq && !r.Delivered {
+		if r.Type == "get" && r.Seq > from && !r.Delivered {
 			out++
 		}
 	}
@@ -1035,10 +1045,64 @@ func (s *Sim) referenceThrottleStep() {
 	s.stat("oracle.C19.a_ref", 1)
 	if out == n {
 		s.probe("reference_throttle_saturated")
+		if s.quietEv != nil {
+			s.probe("reference_throttle_saturated_by_event")
+		}
 	}
 	if out > n {
-		s.violate("C19", "a", "reference-throttle-exceeded", "%d get requests are outstanding while following the references of %s (limit %d)", out, s.quietRoot.Method, n)
+		s.violate("C19", "a", "reference-throttle-exceeded", "%d get requests are outstanding while following the references of %s (limit %d)", out, what, n)
 	}
+}
+
+// quietEvent is the window after one resource event delivered at a quiet moment.
+type quietEvent struct {
+	seq     uint64
+	name    string
+	holders int
+}
+
+// loneEvent: the head of the FIFO of resource name is an event, nothing else
+// is on its way anywhere and the gateway is idle. Returns the window to open
+// when it is delivered.
+func (s *Sim) loneEvent(name string) *quietEvent {
+	if s.numParked() != 0 || !s.tr.bagEmpty() {
+		return nil
+	}
+	s.mu.Lock()
+	defer s.mu.Unlock()
+	for _, r := range s.tr.reqs {
+		if !r.Delivered {
+			return nil
+		}
+	}
+	for n, q := range s.tr.fifos {
+		if n != name && len(q) > 0 {
+			return nil
+		}
+	}
+	q := s.tr.fifos[name]
+	if len(q) != 1 || q[0].Kind != "event" {
+		return nil
+	}
+	holders := 0
+	for _, c := range s.Clients {
+		if c.State != "open" {
+			continue
+		}
+		for rid, h := range c.Cache {
+			if h.Kind == 'e' {
+				continue
+			}
+			if nm, _ := splitRID(c.expandCID(rid)); nm == name {
+				holders++
+				break
+			}
+		}
+	}
+	if holders == 0 {
+		holders = 1
+	}
+	return &quietEvent{seq: s.seq, name: name, holders: holders}
 }
 
 // ---- profiles --------------------------------------------------------------------
@@ -1278,6 +1342,8 @@ func buildThrottleProfile(s *Sim, r *rand.Rand, p *ProfileParams, arm func(strin
 	p.Faults["reset"] = true
 	p.Faults["quietreset"] = true
 	p.Faults["quietroot"] = true
+	arm("disconnect", true)
+	arm("reaccess", true)
 	p.Strict = false
 	p.SvcOps = 6 + r.IntN(12)
 	p.ClientOps = 6 + r.IntN(20)
@@ -1294,6 +1360,34 @@ func genThrottleSvcOp(s *Sim) (Decision, bool) {
 	x := s.rng.Float64()
 	if x < 0.2 {
 		return s.genSilent()
+	}
+	if x > 0.8 {
+		// one change event that adds several new references at once
+		var hot, cold []string
+		for _, n := range s.liveNames() {
+			if s.W.Res[n].Kind != 'm' && s.W.Res[n].Kind != 'c' {
+				continue
+			}
+			if s.W.eventSubscribed(n) {
+				if s.W.Res[n].Kind == 'm' {
+					hot = append(hot, n)
+				}
+			} else {
+				cold = append(cold, n)
+			}
+		}
+		if len(hot) > 0 && len(cold) >= 2 {
+			name := pickOne(s, hot)
+			set := map[string]*Val{}
+			for i, k := range propKeys {
+				if i >= len(cold) {
+					break
+				}
+				v := ref(cold[i])
+				set[k] = &v
+			}
+			return svcDecision(&SvcOp{Op: "change", Name: name, Set: set}), true
+		}
 	}
 	if x < 0.45 {
 		op := &SvcOp{Op: "reset", Res: []string{pickOne(s, []string{"ex.>", "ex.*", ">"})}}
